@@ -43,7 +43,7 @@ Next ==
        [] e.op = "stmt" ->
             LET r == C!RefOf(e.tpl) IN
             IF ~C!Accepted(r) \/ ~C!InDomain(e, r)
-            THEN nood' = nood + 1 /\ UNCHANGED <<nrej, nbad>>
+            THEN PrintT("OOD " \o ToJson([i |-> e.i])) /\ nood' = nood + 1 /\ UNCHANGED <<nrej, nbad>>
             ELSE IF ~OracleSane(e, r)
             THEN PrintT("BADORACLE " \o ToJson([i |-> e.i])) /\ nbad' = nbad + 1 /\ UNCHANGED <<nrej, nood>>
             ELSE LET f == C!Failures(e, r) IN
